@@ -82,7 +82,15 @@ for _c in (generic, number, integer, signedinteger, unsignedinteger, inexact, fl
     _c.__module__ = "numpy"
 
 # symbolic scalars report NumPy scalar classes to isinstance / x.__class__
-symx.NPCLS.update(bool_=bool_, int64=int64, float64=float64, datetime64=datetime64, timedelta64=timedelta64)
+def _dtype_of_scalar(x):
+    if isinstance(x, SymDT): return _dt_dtype("M", x.unit)
+    if isinstance(x, SymTD): return _dt_dtype("m", x.unit)
+    if isinstance(x, SymF64): return dtype(float)
+    if isinstance(x, SymI64): return dtype(int)
+    return dtype(builtins.bool)
+
+symx.NPCLS.update(bool_=bool_, int64=int64, float64=float64, datetime64=datetime64, timedelta64=timedelta64,
+                  dtype_of=_dtype_of_scalar)
 
 _EPOCH = _dtm.date(1970, 1, 1)
 
@@ -999,22 +1007,16 @@ def isin(a, test):
     return ndarray._make([ANY([_py_eq(x, t) for t in test]).e for x in a], dtype(builtins.bool))
 
 def unique(a, return_index=False, return_inverse=False, return_counts=False, equal_nan=True):
-    if a.dtype.kind == "O":
-        # NumPy sorts the objects with <; None is not orderable
-        cs = a._cells()
-        for i in range(len(cs) - 1):
-            try:
-                cs[i] < cs[i + 1]
-            except TypeError as e:
-                raise TypeError(str(e))
-        raise ModelGap("np.unique on object array")
     order = _stable_order([a])
     cs = a._cells()
     groups = []
     c = symx.ctx
     for i in order:
         if groups:
-            _, eq = _lt_eq(cs[groups[-1][0]], cs[i], a.dtype)
+            if a.dtype.kind == "O":
+                eq = z3.BoolVal(builtins.bool(cs[groups[-1][0]] == cs[i]))
+            else:
+                _, eq = _lt_eq(cs[groups[-1][0]], cs[i], a.dtype)
             eq = z3.simplify(eq)
             if z3.is_true(eq) or (not z3.is_false(eq) and c().branch(eq)):
                 groups[-1].append(i)
